@@ -4,6 +4,7 @@ use super::common::*;
 use crate::fabric::LinkCfg;
 use crate::runner::{ScenFuture, Scenario};
 use crate::world::*;
+use rand::Rng;
 use serde_json::json;
 use std::time::Duration;
 
@@ -58,6 +59,28 @@ fn run(input: RunInput) -> ScenFuture {
         watch_events(&w, &a);
         watch_events(&w, &b);
 
+        // an application that uses a connection the moment it is announced: a request goes out over
+        // whichever connection registers first - possibly the one that is about to lose - and its
+        // handler on the other side may be CPU-bound for a while (it cannot be dropped meanwhile)
+        if w.flag("eager_application", 0.4) {
+            for (k, (me, other)) in [(a.net.clone(), b.peer_id), (b.net.clone(), a.peer_id)].into_iter().enumerate() {
+                let Ok((mut rx, _)) = me.subscribe() else { continue };
+                let mut re = w.rng(&format!("wl:eager{k}"));
+                let w2 = w.clone();
+                tokio::spawn(async move {
+                    while let Ok(ev) = rx.recv().await {
+                        if matches!(ev, anemo::types::PeerEvent::NewPeer(p) if p == other) {
+                            let hold: u64 = if re.gen_bool(0.6) { re.gen_range(20..600) } else { 0 };
+                            let me2 = me.clone();
+                            w2.probe("request-over-the-first-connection-announced");
+                            tokio::spawn(async move {
+                                let _ = me2.rpc(other, anemo::Request::new(bytes::Bytes::from_static(b"eager")).with_header("x-hold-ms", hold.to_string())).await;
+                            });
+                        }
+                    }
+                });
+            }
+        }
         let off_a = w.param("dial_offset_a_us", 0, 40_000) as u64;
         let off_b = w.param("dial_offset_b_us", 0, 40_000) as u64;
         // "never on arrival order": a dial-back that comes seconds later follows the same rule
